@@ -119,7 +119,15 @@ func (f *Frame) execInstr(b *ssa.BasicBlock, st *State, in ssa.Instruction) bool
 		c.note("channel operations abstracted (values received are havoc, no interleaving semantics)")
 		f.vals[x] = f.freshRef(b, st, x.Type())
 	case *ssa.Send:
-		c.note("channel operations abstracted (values received are havoc, no interleaving semantics)")
+		c.note("channel operations abstracted (values received are havoc, no interleaving semantics); each send increments the ghost counter 'sent' of the channel")
+		{
+			key := "X:sent"
+			tr.regKey(key, []Sx{"Int"}, c.it.isort())
+			ch := f.val(x.Chan)
+			old := tr.memGet(st, key)
+			st.mem[key] = c.define("H_"+key, tr.memSortFull(key), sx("store", old, ch.t, c.it.addNW(sx("select", old, ch.t), c.it.iconst(1))))
+			f.noteWrite(key, b.Index)
+		}
 	case *ssa.Select:
 		c.note("channel operations abstracted (values received are havoc, no interleaving semantics)")
 		var tup []Val
